@@ -112,6 +112,14 @@ def cases(tier, seed):
     ]
     for t in multi:
         add(t, WORDS3, LEFTC, "m:")
+    # products of two wrappers of the same operator object (the A^T A / A^H A inference patterns and their look-alikes)
+    for sub in (["tridiag", 2, C16], ["generic", ["dense", 2, 2, C16]], ["tridiag", 3, F8], ["generic", ["dense", 2, 3, C16]]):
+        sq = tree_shape(sub)[0] == tree_shape(sub)[1]
+        for w1 in ("I", "T", "H", "Tc", "Hc"):
+            for w2 in ("I", "T", "H", "Tc", "Hc"):
+                if (w1 == "I") == (w2 == "I") and not sq:
+                    continue
+                add(["pair", w1, w2, sub], WORDS2, [["vec", C16]], "p:")
     pool2 = [["kron", ["dense", 2, 1, C16], ["dense", 1, 2, F8]], ["product", ["dense", 2, 3, C16], ["dense", 3, 2, F8]],
              ["sum", ["dense", 2, 2, C16], ["diag", 2, F8]], ["transpose", ["dense", 2, 2, C16]], ["adjoint", ["tridiag", 2, C16]],
              ["sliced", ["dense", 3, 3, C16], ["s", 1, None, None], ["s", None, 2, None]], ["generic", ["dense", 2, 2, C16]],
